@@ -502,14 +502,20 @@ def run(ctx):
 
     # 3. O-style validation of the spec's instruction-kind claims on the realised singles
     rc, so, se = vlib.sh([irk, "-dir", gen.dir] + ["./" + n for n in s_names], env=vlib.go_env(), timeout=1800)
-    if rc != 0:
+    if rc != 0 and ("panic: " in se or "fatal error: " in se):
+        # the real IR builder crashed inside the observer: the lint runs below meet the same crash through the
+        # buildir pass and judge it; the coverage observation is skipped for this run
+        ctx.note("IR-kind observation skipped: the builder crashed in h-irkinds (%s)" % (crash_signature(se) or se[-300:]))
+        stats["ir_kinds_observed"] = None
+    elif rc != 0:
         raise Inconclusive("h-irkinds failed: %s" % se[-1500:])
-    ro = vlib.run_tlc(ctx, "GoAtoms", "GoAtoms_obs.cfg", workers=1, timeout=900, extra_files={"irkinds.json": so.strip()}, case_prefix="IROBS ")
-    if ro.violated or not ro.cases:
-        raise Inconclusive("the realised cases do not reach every go/ir instruction kind of GoAtoms.tla (coverage hole): %s\n%s"
-                           % (ro.cases[:1], ro.out[-1200:]))
-    stats["ir_kinds_observed"] = len(json.loads(so))
-    stats["ir_optional_seen"] = ro.cases[0].get("optional_seen")
+    else:
+        ro = vlib.run_tlc(ctx, "GoAtoms", "GoAtoms_obs.cfg", workers=1, timeout=900, extra_files={"irkinds.json": so.strip()}, case_prefix="IROBS ")
+        if ro.violated or not ro.cases:
+            raise Inconclusive("the realised cases do not reach every go/ir instruction kind of GoAtoms.tla (coverage hole): %s\n%s"
+                               % (ro.cases[:1], ro.out[-1200:]))
+        stats["ir_kinds_observed"] = len(json.loads(so))
+        stats["ir_optional_seen"] = ro.cases[0].get("optional_seen")
 
     # 4. lint singles, then pairs (atoms that crash alone are not combined again)
     traces = []
